@@ -1293,7 +1293,46 @@ def check_runtime_models(ctx: Ctx) -> None:
     ctx.ob("20.8-runtime-model", cname(rel, "PydanticGrammar", "__getstate__"), ok, "__getstate__ must replace a marked model by its fields", node=gs or cls.node, stmt="marked models are pickled by their fields")
 
 
+# attributes a hook run AFTER the state is restored may assign although they are pickled, with the reason
+HOOK_RECOMPUTES = {
+    ("utils/directory_creator.py::DirectoryCreator", "__counter"): "the counter names the next free directory: it is recomputed from the content of the directory, which is the truth in the process that unpickles",
+}
+
+
+def check_hook_writes(ctx: Ctx) -> None:
+    """20.9: ``Serializable.__setstate__`` runs ``_init_shared_memory_attrs_before``, restores the pickled attributes
+    (an attribute the first hook created is kept, a synchronised one gets its value), then runs
+    ``_init_shared_memory_attrs_after``.  So: what the AFTER hook assigns replaces what was just restored -- it may only
+    (re)create attributes that are left out of the pickled state; what the BEFORE hook assigns hides the pickled
+    value -- it may only create synchronised primitives (their value is then set) or attributes left out of the state.
+    A seeder, a counter or any other plain attribute created in a hook comes back as new from every unpickling."""
+    idx = ctx.index
+    ser = idx.cls(SER, "Serializable")
+    n = 0
+    for cls in idx.subclasses(ser):
+        entries, _ = _entries(ctx, cls)
+        for hook in HOOKS:
+            m = cls.methods.get(hook)
+            if m is None:
+                continue
+            for st in stmts_of(m):
+                if not isinstance(st, (ast.Assign, ast.AnnAssign)) or getattr(st, "value", None) is None:
+                    continue
+                for t in (st.targets if isinstance(st, ast.Assign) else [st.target]):
+                    if not (isinstance(t, ast.Attribute) and dotted(t.value) == "self"):
+                        continue
+                    n += 1
+                    names = {t.attr, mangle(cls.name, t.attr)}
+                    excluded = bool(names & entries)
+                    sync = isinstance(st.value, ast.Call) and (dotted(st.value.func) or "").split(".")[-1] in SYNCHRONIZED
+                    known = (cls.key, t.attr) in HOOK_RECOMPUTES
+                    ok = excluded or known or (hook == BEFORE and sync)
+                    ctx.ob("20.9-hook-writes", cname(cls.module.relpath, cls.qualname, hook), ok, f"`{norm_stmt(st, 60)}` in {hook}: `{t.attr}` is part of the pickled state and " + ("is assigned after the state is restored: the restored value is replaced by a new object at every unpickling" if hook == AFTER else "is created before the state is restored as a plain attribute: the pickled value is dropped"), node=st, stmt=f"{t.attr} assigned in {hook}")
+    ctx.floor("20.9-hook-writes", 6)
+
+
 def run(ctx: Ctx) -> None:
+    check_hook_writes(ctx)
     check_runtime_models(ctx)
     check_exclusions(ctx)
     check_primitives(ctx)
